@@ -319,8 +319,10 @@ open Ymq.PolySizes in
 `M = 557056 = siqs::interval_size(470)`, and `A` within 0.1 % of the target, `prepare_a` succeeds but
 `Poly::first` does not return: `_finish_polynomial` stops at `assert!(a.a.bits() + 2 * mlog < 255)`
 (217 + 2·20). Every hypothesis of `SizeDom` holds except `n < 2^448`. On the real code (both profiles)
-`siqs_walk <n> 1 20000 auto auto 4 0 …` panics at that assertion for every probed `n` of 466 bits and more:
-`siqs::siqs` has no size guard (MPQS refuses above 448 bits, QS above 400). -/
+`siqs_walk <n> 1 20000 auto auto 4 0 …` panics at that assertion for every probed `n` of 466 bits and more.
+When this was found `siqs::siqs` had no size guard (MPQS refuses above 448 bits, QS above 400); since the repair
+`a235189` it refuses `n` above 448 bits, the bound of `siqs_walk_total`; `prepare_a`/`Poly::first` called directly
+still behave as stated here. -/
 theorem size_assert_fails_470 :
     (2 : Int) ^ 448 ≤ nBig ∧ siqsTarget nBig 557056 ≤ 4 * aBig ∧ aBig ≤ 4 * siqsTarget nBig 557056 ∧
     ((mkFactors nBig selBig).bind fun f =>
